@@ -10,6 +10,8 @@ class PreconditionNotMet(Exception):
 
 
 def _num(v):
+    if v is None:
+        return float("nan")
     if isinstance(v, dict):
         if "frac" in v:
             fr = Fraction(v["frac"][0], v["frac"][1])
@@ -177,6 +179,11 @@ class NatSpec(object):
 
     def isnan(self, x):
         return isinstance(x, float) and x != x
+
+    def same(self, a, b):
+        if isinstance(a, float) and isinstance(b, float) and a != a and b != b:
+            return True
+        return bool(a == b)
 
     def snapshot(self, arr):
         return np.array(arr, copy=True)
